@@ -7,6 +7,7 @@ import (
 
 	"github.com/markkurossi/mpc/circuit"
 	"github.com/markkurossi/mpc/ot"
+	"github.com/markkurossi/mpc/types"
 )
 
 func init() { register("c01", runC01) }
@@ -20,6 +21,10 @@ type blockLog struct {
 	// C01 quantifies over ALL label randomness; structured values are where a comparison or
 	// a multiplication that looks at only part of a label goes wrong.
 	and *[16]byte
+	// mirror: when set, the low half of every block is replaced by its high half with the top
+	// bit forced (D0 == D1 with the permute bit already 1: the two labels of a wire then differ
+	// by a value whose halves are equal)
+	mirror bool
 }
 
 // c01RandPatterns: AND masks for directed label randomness.
@@ -41,12 +46,57 @@ func (b *blockLog) Read(p []byte) (int, error) {
 			p[i] &= b.and[i]
 		}
 	}
+	if len(p) == 16 && b.mirror {
+		p[0] |= 0x80
+		copy(p[8:], p[:8])
+	}
 	if len(p) == 16 {
 		var l ot.Label
 		l.SetBytes(p)
 		b.blocks = append(b.blocks, l)
 	}
 	return n, err
+}
+
+// c01WithCompoundInputs returns a copy of the circuit whose inputs are declared as
+// (scalar, struct{...}) / (struct{...}, scalar) / (struct, struct): only the IO declaration
+// changes, the wires and gates stay.
+func c01WithCompoundInputs(c *circuit.Circuit, shape int) *circuit.Circuit {
+	n := ioBits(c.Inputs)
+	cp := *c
+	mk := func(name string, bits int) circuit.IOArg { return circuit.IOArg{Name: name, Type: uintInfo(bits)} }
+	strct := func(name string, bits int) circuit.IOArg {
+		a := bits / 2
+		if a == 0 {
+			a = bits
+		}
+		arg := circuit.IOArg{Name: name, Type: uintInfo(bits)}
+		arg.Type.Type = types.TStruct
+		arg.Compound = circuit.IO{mk(name+".x", a)}
+		if bits-a > 0 {
+			arg.Compound = append(arg.Compound, mk(name+".y", bits-a))
+		}
+		return arg
+	}
+	k := 1 + n/3
+	switch shape {
+	case 0:
+		cp.Inputs = circuit.IO{mk("a", k), strct("b", n-k)}
+	case 1:
+		cp.Inputs = circuit.IO{strct("a", n-k), mk("b", k)}
+	default:
+		cp.Inputs = circuit.IO{strct("a", k), strct("b", n-k)}
+	}
+	return &cp
+}
+
+// ioBits: total declared width of the top-level arguments.
+func ioBits(io circuit.IO) int {
+	n := 0
+	for _, a := range io {
+		n += int(a.Type.Bits)
+	}
+	return n
 }
 
 func wiresSX(ws []ot.Wire) SX {
@@ -116,6 +166,12 @@ func runC01(c *Ctx) error {
 			overwrites = true
 			c.Hist("circuit:gate-writes-input-wire")
 		}
+		if i%7 == 3 && !overwrites && ioBits(circ.Inputs) >= 3 {
+			// the same circuit with struct-typed (compound) arguments: a scalar followed by a
+			// struct, or a struct followed by a scalar; total width and wires unchanged
+			circ = c01WithCompoundInputs(circ, (i/7)%3)
+			c.Hist("circuit:compound-input-arguments")
+		}
 		key := r.Bytes(keyLens[i%3])
 		if i%8 == 1 || i%8 == 2 {
 			// successive sessions often refill ONE key buffer (var key [32]byte; rand.Read(key[:])):
@@ -125,7 +181,7 @@ func runC01(c *Ctx) error {
 			key = sharedKeyBuf[:len(key)]
 			c.Hist("key:shared-buffer-refilled")
 		}
-		ni := circ.Inputs.Size()
+		ni := ioBits(circ.Inputs) // not Inputs.Size(): the harness must not depend on the helper under test
 		no := circ.Outputs.Size()
 		// The same *Circuit is garbled several times with Release in between, so that
 		// later rounds run on reused scratch buffers (sync.Pool) holding the previous
@@ -137,10 +193,16 @@ func runC01(c *Ctx) error {
 		for round := 0; round < rounds; round++ {
 			rd := &blockLog{r: r.Fork()}
 			if i%10 == 4 && !overwrites {
-				name := c01RandPatternNames[(i/10+round)%len(c01RandPatternNames)]
-				m := c01RandPatterns[name]
-				rd.and = &m
-				c.Hist("randomness:" + name)
+				k := (i/10 + round) % (len(c01RandPatternNames) + 1)
+				if k == len(c01RandPatternNames) {
+					rd.mirror = true
+					c.Hist("randomness:halves-equal")
+				} else {
+					name := c01RandPatternNames[k]
+					m := c01RandPatterns[name]
+					rd.and = &m
+					c.Hist("randomness:" + name)
+				}
 			}
 			g, err := circ.Garble(rd, key)
 			if err != nil {
@@ -254,7 +316,7 @@ func c01Concurrent(c *Ctx) error {
 	for ci := 0; ci < nc; ci++ {
 		r := c.rng.Fork()
 		circ := GenCircuit(r, GenOpts{MinIn: 4, MaxIn: 10, MinGates: 1200, MaxGates: 2500, MaxOut: 8, Overwrite: true})
-		ni := circ.Inputs.Size()
+		ni := ioBits(circ.Inputs) // not Inputs.Size(): the harness must not depend on the helper under test
 		no := circ.Outputs.Size()
 		type sess struct {
 			key  []byte
